@@ -2,7 +2,9 @@
 Re-transcription of `dfir_lang::graph::graph_algorithms::SubgraphMerge` (new / find / try_merge /
 subgraphs) and of `dfir_lang::union_find::UnionFind` (abstracted to its representative function:
 `union(i, j)` relabels class `j` to `i`, exactly what `links[find(b)] = find(a)` does to `find`).
-Executed by the driver; its invariants are the subject of C17 (project HvGraphAlg).
+Executed by the driver.  Proved for this transcription: enemies never share a group (`Props/EnemiesSep.lean`) and
+independence of the one hash iteration order (`Props/C42.lean`, `Props/C42Lift.lean`); the range/order invariant is
+the subject of C17 (project HvGraphAlg, own transcription).
 
 The one place where the Rust code iterates a hash container (`for w in self.enemies.remove(v)…`,
 a `HashSet<K>`) takes the iteration order as an explicit permutation argument (`perm`), see C42.
